@@ -53,6 +53,7 @@ type Workload struct {
 	Filter  bool      `json:"filtering_togglers,omitempty"`
 	Trigger bool      `json:"trigger_writer,omitempty"` // the destination sits behind a *TriggerLevelWriter that lets everything through (its own mutex covers WriteLevel only)
 	Hold    bool      `json:"trigger_holds,omitempty"`  // ... which holds debug lines until the first line at warn or above (or the Trigger() call the harness makes at the end)
+	TestW   bool      `json:"test_writer,omitempty"`    // the destination is a zerolog.TestWriter whose T keeps the lines it is given (no console, no trigger writer)
 	Plain   int       `json:"plain_writers,omitempty"`  // with SyncWriter: goroutines that use the writer as a plain io.Writer (the standard library logger), 3 lines each
 	Double  bool      `json:"double_sync,omitempty"`    // with SyncWriter: some loggers write through SyncWriter(dst), the others through SyncWriter(SyncWriter(dst)), the same inner wrapper
 	Closer  bool      `json:"closer,omitempty"`         // with SyncWriter: another goroutine calls Close on it meanwhile (as Logger.Fatal or a shutdown path would); Close is a call on the wrapped writer too
@@ -66,6 +67,7 @@ type checkWriter struct {
 	consNew bool
 	trigger bool
 	hold    bool
+	testw   *keepTB // the destination is a zerolog.TestWriter around this
 	mode    string
 	mu      sync.Mutex
 	got     [][]byte
@@ -107,6 +109,30 @@ func (w *checkWriter) Write(p []byte) (int, error) {
 	w.mu.Unlock()
 	atomic.AddInt32(&w.inside, -1)
 	return len(p), nil
+}
+
+// keepTB is the testing.TB-like value behind a zerolog.TestWriter: a test double that collects the lines for
+// assertions at the end of the test and keeps the strings it is handed (they are immutable: nobody may change
+// them afterwards).
+type keepTB struct {
+	mu   sync.Mutex
+	kept []string
+}
+
+func (k *keepTB) Helper() {}
+func (k *keepTB) Log(args ...interface{}) {
+	k.mu.Lock()
+	defer k.mu.Unlock()
+	if s, ok := args[0].(string); ok && len(args) == 1 {
+		k.kept = append(k.kept, s)
+	} else {
+		k.kept = append(k.kept, fmt.Sprint(args...))
+	}
+}
+func (k *keepTB) Logf(format string, args ...interface{}) {
+	k.mu.Lock()
+	defer k.mu.Unlock()
+	k.kept = append(k.kept, fmt.Sprintf(format, args...))
 }
 
 // Close is one more call on the wrapped writer: under SyncWriter it must not overlap a Write.
@@ -167,6 +193,9 @@ func loggers(w *checkWriter, syncW bool, double ...bool) []*zerolog.Logger {
 				c.FormatFieldName = fieldName
 			})
 		}
+	}
+	if w.testw != nil && !w.console && !w.trigger {
+		dst = zerolog.TestWriter{T: w.testw}
 	}
 	if w.trigger && !w.console {
 		tlw := &zerolog.TriggerLevelWriter{Writer: dst, ConditionalLevel: zerolog.Level(-100), TriggerLevel: zerolog.Level(-100)}
@@ -284,6 +313,9 @@ func runWorkload(wl *Workload) (msg string, nontrivial bool) {
 	}
 	// concurrent
 	w := &checkWriter{mode: wl.Writer, gate: make(chan struct{}), console: wl.Console, consNew: wl.ConsNew, trigger: wl.Trigger, hold: wl.Hold && wl.Trigger}
+	if wl.TestW && !wl.Console && !wl.Trigger {
+		w.testw = &keepTB{}
+	}
 	ls := loggers(w, wl.Sync, wl.Double)
 	zlog.Logger = *ls[3]
 	var wg sync.WaitGroup
@@ -364,6 +396,12 @@ func runWorkload(wl *Workload) (msg string, nontrivial bool) {
 	}
 	zerolog.SetGlobalLevel(zerolog.TraceLevel)
 	zerolog.DisableSampling(false)
+	if w.testw != nil {
+		// what the test double kept, as it reads now (TestWriter hands over the line without its newline)
+		for _, s := range w.testw.kept {
+			w.got = append(w.got, []byte(s+"\n"))
+		}
+	}
 	nontrivial = atomic.LoadInt32(&w.maxIn) >= 2 && crossed
 	if atomic.LoadInt32(&w.mutated) != 0 {
 		return "the byte slice handed to Write was modified before Write returned", nontrivial
@@ -453,6 +491,7 @@ func genWorkload(rt *rapid.T, maxG int) *Workload {
 		wl.Plain = rapid.IntRange(0, 2).Draw(rt, "plain")
 	}
 	wl.ConsNew = wl.Console && rapid.Bool().Draw(rt, "consnew")
+	wl.TestW = !wl.Console && !wl.Trigger && wl.Plain == 0 && rapid.IntRange(0, 3).Draw(rt, "testw") == 0
 	ng := rapid.IntRange(2, maxG).Draw(rt, "G")
 	for i := 0; i < ng; i++ {
 		n := rapid.IntRange(1, 6).Draw(rt, "n")
